@@ -25,11 +25,33 @@ type Env struct {
 	Log map[string]int `json:"-"`
 }
 
+func wordByte(c byte) bool {
+	return c == '_' || c >= '0' && c <= '9' || c >= 'a' && c <= 'z' || c >= 'A' && c <= 'Z' || c >= 0x80
+}
+
+// Canon is the spacing-insensitive form of an operand / argument text: blanks are
+// dropped, except that a blank between two word characters is kept as ONE blank - "BASE + 8",
+// "BASE+8" and "BASE  +8" are the same text, "0x1 f" and "0x1f" are not (an assembler reads
+// the former as two tokens).
 func Canon(s string) string {
 	if strings.IndexAny(s, " \t") < 0 {
 		return s
 	}
-	return strings.Join(strings.Fields(s), "")
+	var sb strings.Builder
+	pendingBlank := false
+	for i := 0; i < len(s); i++ {
+		c := s[i]
+		if c == ' ' || c == '\t' {
+			pendingBlank = true
+			continue
+		}
+		if pendingBlank && sb.Len() > 0 && wordByte(c) && wordByte(sb.String()[sb.Len()-1]) {
+			sb.WriteByte(' ')
+		}
+		pendingBlank = false
+		sb.WriteByte(c)
+	}
+	return sb.String()
 }
 
 func (e *Env) lookup(epoch int, key string) (int, bool) {
